@@ -497,6 +497,13 @@ pub fn check_cli(case: &CfgCase, w: usize, side: Side) -> CheckResult {
             };
             let o = env.mr(&["target", "show", "-g"]);
             judge_groups(cfg, &get_groups(&o, "target show -g")?, &all_set, "target show -g")?;
+            // the display options of `target show` (commands, argmaps) do not change what is grouped;
+            // one target is given an argmap file so that the others differ from it in that respect
+            if let Some(t0) = cfg.targets.first() {
+                env.write_file(&format!("{}/base.json", t0.argmaps_dir()), b"{\"c0\": [\"--flag\"]}");
+            }
+            let o = env.mr(&["target", "show", "-g", "-m", "-c"]);
+            judge_groups(cfg, &get_groups(&o, "target show -g -m -c")?, &all_set, "target show -g -m -c")?;
             let o = env.mr(&["analyze", "--target-groups"]);
             judge_groups(cfg, &get_groups(&o, "analyze --target-groups")?, &all_set, "analyze --target-groups (no checkpoint)")?;
             let o = env.mr(&["run", "-c", "c0"]);
